@@ -21,7 +21,7 @@ RULE = ('cases are 4-10 steps: emit (a PGPy-made artifact whose packets are re-p
         '(old format, 5-octet, partial) was accepted and relayed and one own artifact was re-parsed; distinct = distinct (tag, '
         'framing, content class) multisets')
 TIERS = {'quick': {'runs': 3000, 'budget_s': 80}, 'thorough': {'runs': 150000, 'budget_s': 1500}}
-PROBES = ('own_signature_long_subpacket', 'own_key_private', 'own_key_protected', 'own_signature', 'own_message', 'own_encrypted', 'relay_accepted', 'relay_rejected',
+PROBES = ('deprecated_rsa_algorithm_id', 'own_signature_long_subpacket', 'own_key_private', 'own_key_protected', 'own_signature', 'own_message', 'own_encrypted', 'relay_accepted', 'relay_rejected',
           'framing_old', 'framing_5octet', 'framing_partial', 'framing_partial_final5', 'framing_indeterminate', 'unknown_tag', 'unknown_version',
           'uid_invalid_utf8', 'uid_not_nfc', 'filename_non_ascii', 'secret_usage255', 'secret_gnu_dummy', 'secret_gnu_card_stub', 'nested_compressed', 'edit_protect_old_format',
           'edit_add_uid', 'edit_reprotect_other_cipher', 'trust_odd_length', 'uattr_two_subpackets', 'uattr_image_header_other_version', 'uattr_image_header_other_length', 'uattr_three_images')
@@ -150,13 +150,22 @@ def build_foreign(step, ctx, run_seed):
             ctx.probe('filename_non_ascii')
         return 11, renc.build_literal(r.choice([b'b', b'b', b't', b'u', b'l', b'1', b'm', b'\xe9', b'\x80', b'\xff', b'\x00']), fn, r.choice([0, 1, 1_400_000_000, 2 ** 32 - 1]), rnd(n) if r.random() < 0.5 else b'text ' * (n // 5))
     if kind in ('sig',):
-        body, alg, secret = make_ref_key('ed25519', 1_500_000_000, b'', run_seed, label='c08sig')
+        salg = r.choice(['ed25519', 'ed25519', 'p256', 'p521', 'rsa2048', 'rsa2048:3', 'dsa2048'])
+        body, alg, secret = make_ref_key(salg.split(':')[0], 1_500_000_000, b'', run_seed, label='c08sig' + salg[:3])
+        if ':' in salg:
+            # the deprecated RSA Sign-Only id, as some generators still write it
+            body = body[:5] + bytes([int(salg.split(':')[1])]) + body[6:]
+            ctx.probe('deprecated_rsa_algorithm_id')
         pub = rkeys.parse_pub(body)
         hashed = rsigs.sp_created(1_590_000_000) + b''.join(_sp_bytes(gen_subpacket(r)) for _ in range(step['nsub']))
         unhashed = rsigs.sp_issuer(pub.keyid) + b''.join(_sp_bytes(gen_subpacket(r)) for _ in range(step['nsub'] // 2))
         return 2, rsigs.sign(0x00, pub, secret, 8, hashed, unhashed, b'c08')
     if kind in ('pubkey', 'pubsub', 'seckey', 'secsub'):
         body, alg, secret = make_ref_key(step['keyalg'], r.choice([0, 1, 1_500_000_000, 2 ** 32 - 1]), b'', run_seed, label='c08k%d' % step['seed'])
+        if step['keyalg'].startswith('rsa') and r.random() < 0.4:
+            alg = r.choice([2, 3])
+            body = body[:5] + bytes([alg]) + body[6:]
+            ctx.probe('deprecated_rsa_algorithm_id')
         if kind == 'pubkey':
             return 6, body
         if kind == 'pubsub':
